@@ -178,7 +178,11 @@ theorem resume_isReq (tid : String) (th th' : Thread) (t : Time) (h : th.resume?
     · split at h
       · cases h; rfl
       · cases h
-    · cases h
+    · split at h
+      · split at h
+        · cases h; rfl
+        · cases h
+      · cases h
 
 theorem candidates_count (tid : String) (t : Time) (ths : List Thread) :
     ((ths.map fun th => match th.resume? t with | some th' => (th', true) | none => (th, false)).map (·.1)).countP (isReq tid)
